@@ -1,5 +1,5 @@
-(* C08: extraction of the verified partition oracle and of the QuickPartitioner model *)
+(* C08: extraction of the verified partition oracle and of the QuickPartitioner / ScanPartitioner models *)
 From Coq Require Import List Arith NArith ZArith.
-From BQ Require Import part.PartSpec part.PartCheck part.Quick.
+From BQ Require Import part.PartSpec part.PartCheck part.Quick part.Scan.
 From Coq Require Extraction ExtrOcamlBasic.
-Extraction "part_model.ml" check_partition quick.
+Extraction "part_model.ml" check_partition quick scan_default.
